@@ -100,6 +100,9 @@ def make_algorithm(name):
         return ck.BioConsert()
     if name == "BioCo":
         return ck.BioCo()
+    if name == "BioConsert[!invalid]":
+        # documented: starting algorithms that are not all RankAggAlgorithm objects are ignored (default departures)
+        return ck.BioConsert(starting_algorithms=[ck.BordaCount(), "not an algorithm"])
     if name.startswith("BioConsert["):
         inner = name[len("BioConsert["):-1]
         return ck.BioConsert(starting_algorithms=[make_algorithm(x) for x in split_top(inner)])
@@ -151,7 +154,7 @@ def split_top(s):
 BASE_CONFIGS = ["Borda", "BordaBucket", "Copeland", "KwikSort", "PickAPerm", "BioConsert", "BioCo",
                 "BioConsert[Borda]", "BioConsert[Copeland,KwikSort]", "BioConsert[PickAPerm]",
                 "ParCons", "ParCons(BioConsert;0)", "ParCons(KwikSort;2)", "ParCons(Copeland;2)", "ParCons(Borda;0)",
-                "ParCons(BioCo;2)", "Pulp", "Exact", "ExactNoOpt", "BioConsert[Pulp]"]
+                "ParCons(BioCo;2)", "Pulp", "Exact", "ExactNoOpt", "BioConsert[Pulp]", "BioConsert[!invalid]"]
 CPLEX_CONFIGS = ["Cplex", "CplexNoOpt", "CplexOptim1"]
 ENUM_CONFIGS = ["enum:EXACT", "enum:PARCONS", "enum:BIOCONSERT", "enum:BIOCO", "enum:KWIKSORTRANDOM", "enum:PICKAPERM",
                 "enum:BORDACOUNT", "enum:COPELANDMETHOD"]
